@@ -70,6 +70,20 @@ func validA58(a58 []byte) (bool, error) {
 		return false, ErrEncodingInvalidVersion
 	}
 
+	// set58 ignores how many leading '1' characters (zero digits) the string has, so require the
+	// canonical form: exactly one leading '1' per leading zero byte of the 25 decoded bytes.
+	// Otherwise a string that decodes to fewer or more than 25 bytes would be accepted.
+	var zeros, ones int
+	for zeros < len(a) && a[zeros] == 0 {
+		zeros++
+	}
+	for ones < len(a58) && a58[ones] == '1' {
+		ones++
+	}
+	if zeros != ones {
+		return false, ErrInvalidAddressLength
+	}
+
 	if a.embeddedChecksum() != a.computeChecksum() {
 		return false, ErrEncodingChecksumFailed
 	}
